@@ -71,6 +71,12 @@ func c05Skeleton() []TNode {
 		{Path: "out/dir/g", Kind: "file", Body: "<SELF>"},
 		{Path: "out2/h", Kind: "file", Body: "<SELF>"},
 		{Path: "src-evil/sub/s", Kind: "file", Body: "<SELF>"},
+		// two files whose paths have the same length, one reached by reading "hop/.." as text,
+		// the other by following hop first (they differ in mode, so a header taken from the
+		// wrong one shows)
+		{Path: "out/h", Kind: "file", Body: "<SELF>", Mode: 0600},
+		{Path: "ou2/h", Kind: "file", Body: "<SELF>", Mode: 0640},
+		{Path: "ou2/sub", Kind: "dir"},
 	}
 }
 
@@ -88,7 +94,11 @@ func c05Links() []TNode {
 	add("src-evil/sub/back", "../../src/a", "s")
 	add("src/m", "../out/f", "../out/dir", "a", "l")
 	add("out/dir/l", "../../src/a", "g", "../f", "../../out2/h", "../../out2", "../../src/d", "<W>/src/a", "<W>/out/dir/g")
-	add("out/dir/k", "../../out/dir/g", "../dir/g", "./g", "../../out/dir") // stays inside the external directory, by way of its own name
+	add("out/hop", "../ou2/sub")                                                // a directory link outside the tree ...
+	add("src/lp", "../out/hop/../h", "../out/hop/..", "../out/hop/../../src/a") // ... and targets that climb out of it again
+	add("src/here", ".", "d/..")                                                // a link to the root itself ...
+	add("src/lh", "here/../out/f", "here/../src-evil/secret", "here/a")         // ... followed by '..': inside as text, outside when followed
+	add("out/dir/k", "../../out/dir/g", "../dir/g", "./g", "../../out/dir")     // stays inside the external directory, by way of its own name
 	return ns
 }
 
@@ -287,6 +297,8 @@ func checkC05(arg PackArg, out PackOut) (mism []string, verdict bool) {
 			}
 			if out.Resolved[e.Name] != prov {
 				mism = append(mism, fmt.Sprintf("entry %s holds the content of %s but src/%s physically resolves to %s", e.Name, prov, e.Name, out.Resolved[e.Name]))
+			} else if pm, ok := out.ResolvedPerm[e.Name]; ok && int64(pm) != e.Mode&0777 {
+				mism = append(mism, fmt.Sprintf("entry %s holds the content of %s (mode %04o) but carries mode %04o: header and body come from different files", e.Name, prov, pm, e.Mode&0777))
 			}
 		case tar.TypeSymlink:
 			// the link is "out-of-tree" when its own (one-hop) target, taken from where the
@@ -305,12 +317,33 @@ func checkC05(arg PackArg, out PackOut) (mism []string, verdict bool) {
 			allowed := arg.AllowOut && (hop == "out" || strings.HasPrefix(hop, "out/"))
 			if !inside && !allowed {
 				mism = append(mism, fmt.Sprintf("link entry %s -> %s stored although its target is outside the source (%s)", e.Name, e.Linkname, hop))
+			} else if hp, ok := out.HopPhys[e.Name]; ok {
+				// the same question asked the way the kernel follows the target: components before
+				// the last one are resolved through the links they name, so '..' after a link climbs
+				// from where that link leads
+				insideP := hp == "src" || strings.HasPrefix(hp, "src/")
+				allowedP := arg.AllowOut && (hp == "out" || strings.HasPrefix(hp, "out/"))
+				if !insideP && !allowedP {
+					mism = append(mism, fmt.Sprintf("link entry %s -> %s is inside the source as text (%s) but leads outside when followed (%s)", e.Name, e.Linkname, hop, hp))
+				}
 			}
 			if !arg.AllowOut && !path.IsAbs(e.Linkname) {
 				c := path.Clean(path.Join(path.Dir(e.Name), e.Linkname))
 				if c == ".." || strings.HasPrefix(c, "../") {
 					mism = append(mism, fmt.Sprintf("relative link entry %s -> %s points outside the archive root at its own position (%s)", e.Name, e.Linkname, c))
 				}
+			}
+		}
+	}
+	if !arg.Deref {
+		// without dereferencing a link is either stored or makes Pack fail; it is never left out
+		have := map[string]bool{}
+		for _, e := range out.Entries {
+			have[strings.TrimSuffix(e.Name, "/")] = true
+		}
+		for _, n := range arg.Nodes {
+			if n.Kind == "link" && strings.HasPrefix(n.Path, "src/") && !have[strings.TrimPrefix(n.Path, "src/")] {
+				mism = append(mism, fmt.Sprintf("link %s -> %s was left out of the slug although Pack reported success", n.Path, n.Target))
 			}
 		}
 	}
@@ -383,10 +416,16 @@ func classOf(ms []string) string {
 			set["header-size"] = true
 		case strings.Contains(m, "although dereferencing is off"):
 			set["foreign-content-without-deref"] = true
+		case strings.Contains(m, "header and body come from different files"):
+			set["header-from-another-file"] = true
 		case strings.Contains(m, "physically resolves to"):
 			set["wrong-provenance"] = true
 		case strings.Contains(m, "leaves the archive root"):
 			set["entry-name-leaves-root"] = true
+		case strings.Contains(m, "was left out of the slug"):
+			set["link-left-out"] = true
+		case strings.Contains(m, "but leads outside when followed"):
+			set["link-inside-as-text-outside-when-followed"] = true
 		case strings.Contains(m, "stored although its target is outside"):
 			set["outside-link-stored"] = true
 		case strings.Contains(m, "points outside the archive root"):
